@@ -138,6 +138,38 @@ func init() {
 			trunc = strings.Contains(norm(fd.Body), `this.db,err=badger.Open(badger.LSMOnlyOptions(path.Join(this.config.DataDir,"anndb")).WithTruncate(true).WithLogger(log.New()))`)
 		}
 		o.def("serverStoreCutsTornTail", "Bool", lbool(trunc), "Server.setup opens the node's Badger store with WithTruncate(true): a value log that ends inside a record (a write the crash interrupted) is cut back to the last complete record on open")
+		// C11: the channel a writer waits on is closed by that writer alone (its deferred Remove, after it
+		// has read the answer or given up): nobody else can make the wait end with the channel's zero value,
+		// which every caller would read as "applied, no error"
+		own := false
+		if nf := parseFile("utils/notificator.go"); nf != nil {
+			closes, inRemove := 0, 0
+			for _, d := range nf.Decls {
+				if fd, ok := d.(*ast.FuncDecl); ok && fd.Body != nil {
+					n := strings.Count(norm(fd.Body), "close(")
+					closes += n
+					if fd.Name.Name == "Remove" {
+						inRemove += n
+					}
+				}
+			}
+			removes, deferred := 0, 0
+			for _, rel := range []string{"storage/partition.go", "storage/dataset_manager.go", "storage/dataset.go", "storage/allocator.go", "storage/nodes_manager.go", "storage/raft/shared_group.go", "storage/raft/group.go"} {
+				f := parseFile(rel)
+				if f == nil {
+					continue
+				}
+				for _, d := range f.Decls {
+					if fd, ok := d.(*ast.FuncDecl); ok && fd.Body != nil {
+						b := norm(fd.Body)
+						removes += strings.Count(b, "otificator.Remove(") + strings.Count(b, "otificator.RemoveAll(")
+						deferred += strings.Count(b, "deferfunc(){this.notificator.Remove(notifId)}()") + strings.Count(b, "deferthis.notificator.Remove(notifId)")
+					}
+				}
+			}
+			own = closes == 1 && inRemove == 1 && removes > 0 && removes == deferred
+		}
+		o.def("notificationChannelClosedOnlyByItsWaiter", "Bool", lbool(own), "Notificator closes a channel in Remove only, and every Remove in the storage packages is the deferred clean-up of the goroutine that created the channel and waits on it")
 		o.def("replicaChangeChecksGroupLoaded", "Bool", lbool(guard), "partition.proposeAddNode / proposeRemoveNode look at the partition's raft group under raftMu and return RaftNotLoadedOnNodeErr when it is not loaded (the catalogue change before may have unloaded it)")
 		o.def("replicaAddAppliedUnconditionally", "Bool", lbool(uncond), "partition.addNode lists the node first and unconditionally; loading the raft group comes after and cannot undo the listing")
 	})
